@@ -87,8 +87,65 @@ fn c_key_schedule() {
     assert!(eq_rk(&c.round_keys, &r::key_schedule(&r::pad_key(&buf, n))));
 }
 
+/// Over-approximation of "apply_s(i, .) / apply_s_inv(i, .) and linear_transform / linear_transform_inv are mutually
+/// inverse": during the first block operation every call returns an unconstrained value and is recorded (direction,
+/// S-box number, argument, result); during the second block operation the c-th call consults exactly ONE recorded
+/// call -- the last one not yet consulted (a stack: the second operation undoes the layers of the first in reverse
+/// order) -- and, if that call was the opposite direction with the same S-box number and produced the present
+/// argument, returns that call's argument; otherwise an unconstrained value.  Every behaviour of the real functions
+/// is included, by bitslice.rs l_apply_s_inverse / l_linear_transform_inverse (inverse pairs, both orders) and
+/// c_apply_s / c_apply_s_inv (the S-box used depends on index mod 8 only).
+pub mod ufs {
+    use super::*;
+    pub static mut S_FWD: [bool; 32] = [false; 32];
+    pub static mut S_IDX: [usize; 32] = [0; 32];
+    pub static mut S_A: [[u32; 4]; 32] = [[0; 4]; 32];
+    pub static mut S_B: [[u32; 4]; 32] = [[0; 4]; 32];
+    pub static mut S_CALLS: usize = 0;
+    pub static mut L_FWD: [bool; 31] = [false; 31];
+    pub static mut L_A: [[u32; 4]; 31] = [[0; 4]; 31];
+    pub static mut L_B: [[u32; 4]; 31] = [[0; 4]; 31];
+    pub static mut L_CALLS: usize = 0;
+    #[allow(static_mut_refs)]
+    fn s_any(fwd: bool, index: usize, w: Words) -> Words {
+        unsafe {
+            let c = S_CALLS;
+            S_CALLS += 1;
+            assert!(c < 64);
+            let mut y: Words = kani::any();
+            if c < 32 {
+                S_FWD[c] = fwd; S_IDX[c] = index % 8; S_A[c] = w; S_B[c] = y;
+            } else {
+                let j = 63 - c;
+                if S_FWD[j] != fwd && S_IDX[j] == index % 8 && eq4(&S_B[j], &w) { y = S_A[j]; }
+            }
+            y
+        }
+    }
+    pub fn s_fwd(index: usize, w: Words) -> Words { s_any(true, index, w) }
+    pub fn s_inv(index: usize, w: Words) -> Words { s_any(false, index, w) }
+    #[allow(static_mut_refs)]
+    fn l_any(fwd: bool, w: Words) -> Words {
+        unsafe {
+            let c = L_CALLS;
+            L_CALLS += 1;
+            assert!(c < 62);
+            let mut y: Words = kani::any();
+            if c < 31 {
+                L_FWD[c] = fwd; L_A[c] = w; L_B[c] = y;
+            } else {
+                let j = 61 - c;
+                if L_FWD[j] != fwd && eq4(&L_B[j], &w) { y = L_A[j]; }
+            }
+            y
+        }
+    }
+    pub fn l_fwd(w: Words) -> Words { l_any(true, w) }
+    pub fn l_inv(w: Words) -> Words { l_any(false, w) }
+}
+
 macro_rules! block_fns {
-    ($enc:ident, $dec:ident, $rt:ident, $unwind:expr, $cfgok:expr) => {
+    ($enc:ident, $dec:ident, $rt:ident, $rtmono:ident, $unwind:expr, $cfgok:expr) => {
         #[kani::proof]
         #[kani::stub(crate::bitslice::apply_s, spec_apply_s)]
         #[kani::stub(crate::bitslice::linear_transform, spec_lt)]
@@ -113,10 +170,31 @@ macro_rules! block_fns {
             cipher::BlockCipherDecrypt::decrypt_block(&c, &mut blk);
             assert!(eq4(&r::words_of(&blk.0), &r::decrypt_words(&c.round_keys, r::words_of(&b))));
         }
-        // C01 on the real code with nothing stubbed, for every value of the round keys
+        // C01 for every value of the round keys, both orders, by composition of the inverse-pair lemmas
         #[kani::proof]
+        #[kani::stub(crate::bitslice::apply_s, ufs::s_fwd)]
+        #[kani::stub(crate::bitslice::apply_s_inv, ufs::s_inv)]
+        #[kani::stub(crate::bitslice::linear_transform, ufs::l_fwd)]
+        #[kani::stub(crate::bitslice::linear_transform_inv, ufs::l_inv)]
         #[kani::unwind($unwind)]
         fn $rt() {
+            assert!($cfgok);
+            let c = any_serpent();
+            let b: [u8; 16] = kani::any();
+            let mut blk = Array(b);
+            if kani::any() {
+                cipher::BlockCipherEncrypt::encrypt_block(&c, &mut blk);
+                cipher::BlockCipherDecrypt::decrypt_block(&c, &mut blk);
+            } else {
+                cipher::BlockCipherDecrypt::decrypt_block(&c, &mut blk);
+                cipher::BlockCipherEncrypt::encrypt_block(&c, &mut blk);
+            }
+            assert!(blk.0 == b);
+        }
+        // the same on the real code with nothing stubbed
+        #[kani::proof]
+        #[kani::unwind($unwind)]
+        fn $rtmono() {
             assert!($cfgok);
             let c = any_serpent();
             let b: [u8; 16] = kani::any();
@@ -124,21 +202,20 @@ macro_rules! block_fns {
             cipher::BlockCipherEncrypt::encrypt_block(&c, &mut blk);
             cipher::BlockCipherDecrypt::decrypt_block(&c, &mut blk);
             assert!(blk.0 == b);
-            cipher::BlockCipherDecrypt::decrypt_block(&c, &mut blk);
-            cipher::BlockCipherEncrypt::encrypt_block(&c, &mut blk);
-            assert!(blk.0 == b);
         }
     };
 }
 // @ob name=c_encrypt_block props=C08,C20 fn=serpent::Serpent::encrypt_block uses=c_apply_s,c_linear_transform timeout=600
 // @ob name=c_decrypt_block props=C08,C20 fn=serpent::Serpent::decrypt_block uses=c_apply_s_inv,c_linear_transform_inv timeout=600
-// @ob name=l_roundtrip props=C01 kind=lemma fn=serpent::Serpent::encrypt_block,serpent::Serpent::decrypt_block timeout=900
-block_fns!(c_encrypt_block, c_decrypt_block, l_roundtrip, 34, cfg!(not(serpent_no_unroll)));
+// @ob name=l_roundtrip props=C01 kind=lemma fn=serpent::Serpent::encrypt_block,serpent::Serpent::decrypt_block uses=l_apply_s_inverse,l_linear_transform_inverse,c_apply_s,c_apply_s_inv timeout=600
+// @ob name=l_roundtrip_mono props=C01 kind=lemma tier=thorough fn=serpent::Serpent::encrypt_block,serpent::Serpent::decrypt_block timeout=3600
+block_fns!(c_encrypt_block, c_decrypt_block, l_roundtrip, l_roundtrip_mono, 34, cfg!(not(serpent_no_unroll)));
 // the same three under --cfg serpent_no_unroll (the looped rounds)
 // @ob name=c_encrypt_block_nu props=C08,C03,C20 cfg=no_unroll fn=serpent::Serpent::encrypt_block uses=c_apply_s,c_linear_transform timeout=600
 // @ob name=c_decrypt_block_nu props=C08,C03,C20 cfg=no_unroll fn=serpent::Serpent::decrypt_block uses=c_apply_s_inv,c_linear_transform_inv timeout=600
-// @ob name=l_roundtrip_nu props=C01,C03 kind=lemma cfg=no_unroll fn=serpent::Serpent::encrypt_block,serpent::Serpent::decrypt_block timeout=900
-block_fns!(c_encrypt_block_nu, c_decrypt_block_nu, l_roundtrip_nu, 34, cfg!(serpent_no_unroll));
+// @ob name=l_roundtrip_nu props=C01,C03 kind=lemma cfg=no_unroll fn=serpent::Serpent::encrypt_block,serpent::Serpent::decrypt_block uses=l_apply_s_inverse,l_linear_transform_inverse,c_apply_s,c_apply_s_inv timeout=600
+// @ob name=l_roundtrip_mono_nu props=C01,C03 kind=lemma tier=thorough cfg=no_unroll fn=serpent::Serpent::encrypt_block,serpent::Serpent::decrypt_block timeout=3600
+block_fns!(c_encrypt_block_nu, c_decrypt_block_nu, l_roundtrip_nu, l_roundtrip_mono_nu, 34, cfg!(serpent_no_unroll));
 
 // Public API on bytes: new_from_slice + encrypt_block / decrypt_block == Serpent of the submission for every key of
 // SYMBOLIC length 16..=32 bytes and every block.
